@@ -1,6 +1,7 @@
 package rules
 
 import (
+	"go/token"
 	"go/types"
 
 	"golang.org/x/tools/go/ssa"
@@ -138,4 +139,82 @@ func c10AliasCallee(as []wire.Atom, from, to *ssa.Function) []wire.Atom {
 		out[i] = a
 	}
 	return out
+}
+
+// c10RecycledSource: the encoder reads its 16 name bytes from a buffer it did
+// not create — a value taken from a sync.Pool — and the only writes to that
+// buffer in the function are copies of the name (no element store, hence no
+// padding): the bytes after the name are those left by the buffer's previous
+// user. Returns the position and the finding, or "" when this is not the case.
+func c10RecycledSource(fn *ssa.Function, nameLen int64) (token.Pos, string) {
+	for _, b := range fn.Blocks {
+		for _, in := range b.Instrs {
+			ta, ok := in.(*ssa.TypeAssert)
+			if !ok {
+				continue
+			}
+			get, ok := ta.X.(*ssa.Call)
+			if !ok {
+				continue
+			}
+			g := get.Call.StaticCallee()
+			if g == nil || g.Name() != "Get" || g.Pkg == nil || g.Pkg.Pkg.Path() != "sync" {
+				continue
+			}
+			var buf ssa.Value = ta
+			if ta.CommaOk {
+				continue
+			}
+			// a pointer to a 16-byte array, or a byte slice
+			switch u := buf.Type().Underlying().(type) {
+			case *types.Pointer:
+				arr, isArr := u.Elem().Underlying().(*types.Array)
+				if !isArr || arr.Len() != nameLen {
+					continue
+				}
+			case *types.Slice:
+			default:
+				continue
+			}
+			read, stored, copied := false, false, false
+			seen := map[ssa.Value]bool{}
+			var visit func(v ssa.Value)
+			visit = func(v ssa.Value) {
+				if seen[v] || v.Referrers() == nil {
+					return
+				}
+				seen[v] = true
+				for _, r := range *v.Referrers() {
+					switch y := r.(type) {
+					case *ssa.Slice:
+						visit(y)
+					case *ssa.IndexAddr:
+						for _, rr := range *y.Referrers() {
+							switch z := rr.(type) {
+							case *ssa.Store:
+								if z.Addr == ssa.Value(y) {
+									stored = true
+								}
+							case *ssa.UnOp:
+								read = true
+							}
+						}
+					case *ssa.Call:
+						if bi, isB := y.Call.Value.(*ssa.Builtin); isB && bi.Name() == "copy" && len(y.Call.Args) == 2 && y.Call.Args[0] == v {
+							copied = true
+						} else if !isB {
+							if cal := y.Call.StaticCallee(); cal == nil || cal.Name() != "Put" {
+								stored = true // handed to other code: it may be filled there
+							}
+						}
+					}
+				}
+			}
+			visit(buf)
+			if read && copied && !stored {
+				return ta.Pos(), "the 16 name bytes are read from a buffer taken from a sync.Pool, and the only writes to it here are copy(buffer, Name): the bytes after the name are whatever the buffer's previous user left there, not the pad byte (a short name encoded after a longer one carries the tail of the longer one)"
+			}
+		}
+	}
+	return token.NoPos, ""
 }
